@@ -578,7 +578,10 @@ AMBIENT_CALLS = {
     "os.getcwd": "cwd", "Path.cwd": "cwd", "os.getpid": "pid", "os.environ.get": "env", "os.getenv": "env",
     "tempfile.mkdtemp": "tempname", "tempfile.mkstemp": "tempname", "tempfile.NamedTemporaryFile": "tempname",
     "socket.gethostname": "host", "getpass.getuser": "user", "platform.node": "host",
+    # file times: what is (re)written must not depend on when an earlier run, a checkout or the installation of the generator touched a file
+    "os.path.getmtime": "filetime", "os.path.getctime": "filetime", "os.path.getatime": "filetime",
 }
+FILETIME_ATTRS = {"st_mtime", "st_ctime", "st_atime", "st_mtime_ns", "st_ctime_ns", "st_atime_ns"}
 
 
 def _ambient(repo: Repo, live: List[str], rep: Report) -> None:
@@ -606,6 +609,24 @@ def _ambient(repo: Repo, live: List[str], rep: Report) -> None:
             else:
                 rep.violation("R9.2", sub, f"{mod.name}:{fname}|ambient|{kind}|{norm(stmt)[:80]}",
                               f"an ambient value ({kind}) can reach generated names/content: {verdict[1]}", loc)
+        for n in ast.walk(mod.tree):
+            if isinstance(n, ast.Attribute) and n.attr in FILETIME_ATTRS:
+                n_sites += 1
+                fnode = _enclosing_fn(n)
+                fname = getattr(fnode, "name", "<module>")
+                stmt = enclosing_stmt(n)
+                q = n
+                logged = False
+                while q is not None and q is not stmt:
+                    q = parent(q)
+                    if isinstance(q, ast.Call) and _is_log_call(q):
+                        logged = True
+                sub = f"{mod.relpath}:{fname} `{norm(n)[:40]}` (filetime)"
+                if logged:
+                    rep.ok("R9.2", sub, "only formatted into a log message", f"{mod.relpath}:{n.lineno}")
+                else:
+                    rep.violation("R9.2", sub, f"{mod.name}:{fname}|ambient|filetime|{norm(stmt)[:80]}",
+                                  f"a file time is read on the generation path (`{norm(stmt)[:60]}`): what is written depends on prior runs / check-out / installation times", f"{mod.relpath}:{n.lineno}")
     rep.count("R9.2:ambient_source_sites", n_sites)
     rep.require(n_sites >= 15, f"R9.2: only {n_sites} ambient source sites found (floor 15)")
     # RenderContext must always be given the project root (the os.getcwd() fallback must stay dead on the generation path)
